@@ -95,6 +95,15 @@ structure RewardPoolObs where
   acc : Int         -- raw Dec
 deriving Repr, Inhabited
 
+/-- one pool's reward denom list as the keeper computes it (`keys`), with the inputs of `GetRewardDenoms` -/
+structure RewardDenomsObs where
+  pool : Nat
+  base : String
+  edenOn : Bool
+  ext : List String
+  keys : List String
+deriving Repr, Inhabited
+
 structure SpotOrderObs where
   id : Nat
   owner : String
@@ -143,6 +152,7 @@ structure Snapshot where
   accounted : List AccountedObs := []
   rewards : List RewardObs := []
   rewardPools : List RewardPoolObs := []
+  rewardDenomLists : List RewardDenomsObs := []
   spotOrders : List SpotOrderObs := []
   perpOrders : List PerpOrderObs := []
   denomPrices : FMap String := []     -- per base unit, raw Dec
@@ -216,6 +226,9 @@ def parse (o : Json) : Snapshot :=
       { user := jS (f u "user"), pool := jN (f u "pool"), denom := jS (f u "denom"), pending := jI (f u "pending"), debt := jI (f u "debt") }
     rewardPools := (jA (f (f o "masterchef") "pools")).map fun p =>
       { pool := jN (f p "pool"), denom := jS (f p "denom"), acc := jI (f p "acc") }
+    rewardDenomLists := (jA (f (f o "masterchef") "denomLists")).map fun p =>
+      { pool := jN (f p "pool"), base := jS (f p "base"), edenOn := jB (f p "edenOn"),
+        ext := (jA (f p "ext")).map jS, keys := (jA (f p "keys")).map jS }
     spotOrders := (jA (f ts "spot")).map fun s =>
       { id := jN (f s "id"), owner := jS (f s "owner"), typ := jI (f s "type"), denom := jS (nth (f s "amount") 0),
         amount := jI (nth (f s "amount") 1), escrow := jS (f s "escrow"), rate := jI (f s "rate"), base := jS (f s "base"), quote := jS (f s "quote") }
